@@ -90,7 +90,15 @@ func (n *nodeSim) onAccept(tr *btrack) {
 
 func (n *nodeSim) connected(p int) bool {
 	ps := n.peers[p]
-	return ps.up && ps.inst != nil && ps.inst.isStarted() && !ps.inst.dead
+	if !ps.up {
+		return false
+	}
+	for _, in := range ps.insts {
+		if in.isStarted() && !in.dead {
+			return true
+		}
+	}
+	return false
 }
 
 func (n *nodeSim) onPeerUp(ps *peerState) {
